@@ -143,7 +143,8 @@ pub fn apply_un(op: UnOp, v: &RV) -> RRes {
         (Int, RV::Float(b)) => {
             let f = f64::from_bits(*b);
             if f.is_nan() {
-                Err(RErr::Unspecified)
+                // not a number: an undefined case of the cast, hence an error (never a silent 0)
+                Err(RErr::Overflow)
             } else if f >= -170141183460469231731687303715884105728.0 && f < 170141183460469231731687303715884105728.0 {
                 Ok(RV::Int(f as i128))
             } else {
